@@ -3,7 +3,7 @@ import RedoModel.Lemmas.LogFollow7
 # The trace acceptor `Obs` against the `Sys` model — projection, correspondence relation, one step
 
 `obsOf s es`: what the hooks log of the run `es` from `s` (lock events with the index of the new instance as inode,
-the follower's `enter`/`opened`/`check`/`stop`; reads and appends are invisible).
+the follower's `enter`/`opened`/`check`/`eof`/`stop`; reads of lines and appends are invisible).
 -/
 namespace RedoModel.LogFollow
 open Obs
@@ -25,7 +25,7 @@ def obsFol (s : Sys) : List OEv :=
   | .read =>
     match nextLine s with
     | some _ => []
-    | none => if s.wasLocked then [] else [.stop]
+    | none => if s.wasLocked then [.eof] else [.eof, .stop]
   | .check => [.check (locked s)]
   | .stopped => []
 
@@ -44,6 +44,28 @@ def obsOf : Sys → List Ev → List OEv
     match step s e with
     | none => []
     | some s' => obsEv s e ++ obsOf s' es
+
+/-- The acceptor on a few events, without the position counter. -/
+def osteps : OSt → List OEv → Except Flag OSt
+  | o, [] => .ok o
+  | o, x :: r =>
+    match ostep o x with
+    | .error f => .error f
+    | .ok o' => osteps o' r
+
+theorem orun_append_ok (a b : List OEv) : ∀ (o o1 : OSt) (i : Nat), osteps o a = .ok o1 →
+    orun o (a ++ b) i = orun o1 b (i + a.length) := by
+  induction a with
+  | nil => intro o o1 i h; simp only [osteps, Except.ok.injEq] at h; subst h; rfl
+  | cons x r ih =>
+    intro o o1 i h
+    simp only [osteps] at h
+    cases hx : ostep o x with
+    | error f => rw [hx] at h; cases h
+    | ok o2 =>
+      rw [hx] at h
+      simp only [List.cons_append, orun, hx, List.length_cons]
+      rw [ih o2 o1 (i + 1) h]; congr 1; omega
 
 /-- The acceptor's start state for a follower entering at `enter insts ph`. -/
 def obsStart (insts : List (List Nat)) (ph : Phase) : OSt :=
